@@ -160,7 +160,7 @@ def get_func(frame: FrameType) -> Optional[Callable[..., Any]]:
     # try looking at classes in global scope.
     if func is None:
         for v in frame.f_globals.values():
-            if not isinstance(v, type):
+            if not issubclass(type(v), type):  # not isinstance(): it may consult v.__class__
                 continue
             func = get_func_in_mro(v, code)
             if func is not None:
